@@ -25,18 +25,20 @@ namespace simproc {
 static std::vector<Child*> children;
 static int nextPid = 4000;
 static size_t pipeCap = 65536;
+static uint64_t vforkFailures = 0;
 static bool stdinReadable = false;   // configuration: the parent's own descriptor 0 is readable (/dev/null, a file, a closed pipe - as under cron or CI) or idle (a terminal)
 static void (*childMain)(Child*) = 0;
 static Child* inVfork[80];          // per task: the child whose pre-exec code this task is currently executing
 static uint64_t vforkCtx[80][8];
 
 static char** savedEnviron = 0;   /* the real process environment: restored at the start of every run (code running between vfork and exec shares the parent's memory and may change it) */
-static void resetProc() { if (!savedEnviron) savedEnviron = environ; environ = savedEnviron; for (Child* c : children) delete c; children.clear(); nextPid = 4000; pipeCap = 65536; stdinReadable = false; childMain = 0; memset(inVfork, 0, sizeof inVfork); }
+static void resetProc() { if (!savedEnviron) savedEnviron = environ; environ = savedEnviron; for (Child* c : children) delete c; children.clear(); nextPid = 4000; pipeCap = 65536; stdinReadable = false; vforkFailures = 0; childMain = 0; memset(inVfork, 0, sizeof inVfork); }
 static void restoreEnviron() { if (savedEnviron) environ = savedEnviron; }
 static struct Reg { Reg() { addResetHook(resetProc); addEndHook(restoreEnviron); } } reg;
 
 void setPipeCapacity(size_t n) { pipeCap = n ? n : 1; }
 void setStdinReadable(bool r) { stdinReadable = r; }
+uint64_t vforkFailureCount() { return vforkFailures; }
 void setChildMain(void (*fn)(Child*)) { childMain = fn; }
 const std::vector<Child*>& allChildren() { return children; }
 Child* findChild(int pid) { for (Child* c : children) if (c->pid == pid) return c; return 0; }
@@ -64,6 +66,7 @@ extern "C" {
 void* sim_vfork_prepare() {
   if (!inTask()) return 0;
   HostG h; chargeCall(); yieldSync();
+  if (choose(K_THREADFAIL, 2)) { fault("vfork_eagain"); vforkFailures++; logEvent("vfork_failed"); errno = EAGAIN; return (void*)1; }   /* no resources for another process */
   Child* c = new Child(); c->pid = nextPid++; c->exited = c->execed = c->killed = c->reaped = false; c->status = 0; c->exitCode = 0; c->task = 0; c->parentTask = self(); c->envIsParentEnviron = false;
   FdTable& pt = curTable();
   for (auto& kv : pt.m) { c->table.m[kv.first] = kv.second; refFile(kv.second); }     // the child starts with a copy of the parent's descriptors
@@ -108,6 +111,9 @@ void __wrap__exit(int code) {
 pid_t __wrap_waitpid(pid_t pid, int* status, int options) {
   if (!inTask()) return waitpid(pid, status, options);
   HostG h; chargeCall(); yieldSync();
+  if (pid == -1) {   /* any child */
+    for (;;) { bool any = false; for (Child* k : children) { if (k->reaped) continue; any = true; if (k->exited) { k->reaped = true; if (status) *status = k->status; logEvent("waitpid_any", k->pid, k->status); probe("waitpid_any_child"); return k->pid; } }
+      if (!any) { errno = ECHILD; return -1; } if (options & WNOHANG) return 0; netBlock("waitpid", -1); } }
   Child* c = findChild(pid);
   if (!c || c->reaped) { errno = ECHILD; return -1; }
   if (!c->exited && !(options & WNOHANG) && choose(K_EINTR, 2)) { fault("eintr_waitpid"); logEvent("waitpid_eintr", pid); errno = EINTR; return -1; }   /* a handled signal interrupts a waitpid that would block; the child stays waitable */
@@ -119,6 +125,9 @@ pid_t __wrap_waitpid(pid_t pid, int* status, int options) {
 int __wrap_kill(pid_t pid, int sig) {
   if (!inTask()) return kill(pid, sig);
   HostG h; chargeCall(); yieldSync();
+  if (pid == -1) {   /* every process the caller may signal: here all its live children */
+    bool any = false; for (Child* k : children) if (!k->reaped && !k->exited) { any = true; k->killed = true; k->exited = true; k->status = sig & 0x7f; closeAll(k->table); logEvent("kill", k->pid, sig); probe("kill_all_children"); }
+    if (any) wakeAllNet(); return 0; }
   Child* c = findChild(pid);
   if (!c || c->reaped) { errno = ESRCH; return -1; }
   if (!c->exited) { c->killed = true; c->exited = true; c->status = sig & 0x7f; closeAll(c->table); logEvent("kill", pid, sig); wakeAllNet(); }
